@@ -3,6 +3,26 @@
 import json, subprocess
 
 CLAIMED = {
+ "C02": dict(
+   text="Static decision of the structural clauses that keep committed history immutable: single writer sites and write positions of tx log and commit log (whole program), no DiscardUpto on history logs, lockset of the commit-state fields with caller-holds obligations at every call site, discard guard, TxReader chain check, and one-Alh-four-sinks provenance in performPrecommit. Necessary conditions of C02, not a proof over interleavings.",
+   note="Trusted: Go type checker, go/ssa, frozen tables in checker/c02.go. Not covered: id density and byte equality under arbitrary schedules.",
+   technique="who-may-call / who-may-write over the whole program, lockset dataflow, guard dominance, value provenance on SSA",
+   ref="DESIGN.md §3 C02"),
+ "C10": dict(
+   text="Static decision of copy-on-write discipline of B-tree nodes (every write to a logical node field is on a fresh node, on the receiver of an in-place mutator whose call sites are all on private nodes, under a mutated() guard, or under commitLog in writeTo), lock pairing and lockset of tree/snapshot state, snapshots pinned to flushed roots, discard bounded by open snapshots, flush ordering. Necessary conditions of snapshot immutability, not equivalence with the abstract map.",
+   note="Trusted: Go type checker, go/ssa, COW field table and mutator table in checker/c10.go.",
+   technique="effect/ownership analysis of node field writes, lockset and lock-pairing dataflow, path rules",
+   ref="DESIGN.md §3 C10"),
+ "C14": dict(
+   text="Static decision of the clauses behind safe value-log truncation: lock pairing in the store (ExportTx), value-log fetch/release pairing, DiscardUpto only on fetched value logs or the index's own logs and never with embedded values, forward walk inclusive of the committed frontier, chunk deletion strictly below the offset's chunk, SQL+document catalog copied and committed before truncation through a single entry point, truncated values map to io.EOF / digest export.",
+   note="Trusted: Go type checker, go/ssa, frozen tables in checker/c14.go. Not covered: the tombstone arithmetic of TruncateUptoTx.",
+   technique="lock-pairing dataflow, who-may-call, guard dominance and must-pass-through on the SSA CFG",
+   ref="DESIGN.md §3 C14"),
+ "C17": dict(
+   text="Static decision of the structural clauses behind the byte-log behaviour of single-file and multi-file appendables: lock pairing, lockset with caller-holds helpers, flush-before-fsync/close/read-only switch, seek typestate (whoever moves the descriptor flags seekRequired), offset captured before write, rotation order and guard, SetOffset rewind discipline, discard guard.",
+   note="Trusted: Go type checker, go/ssa, os.File semantics, tables in checker/c17.go. Not covered: refinement of the byte-array model over arbitrary operation sequences.",
+   technique="lockset / lock-pairing dataflow, typestate and ordering rules over the SSA CFG",
+   ref="DESIGN.md §3 C17"),
  "C03": dict(
    text="Static decision of the write-ordering, acknowledgement, recovery-guard and error-discipline clauses the crash-durability argument rests on (all paths of the commit, hash-tree, index and appendable code; all call sites of the ack primitives). A necessary condition of C03, not a proof of crash consistency.",
    note="Trusted: Go type checker, go/ssa lowering, the frozen rule tables in checker/c03*.go; appendables honour Flush/Sync. Not covered: which bytes survive a crash, recovery as a whole.",
